@@ -22,6 +22,9 @@ CHECKS = {
  "C16": dict(level="model_checking", design="5/C16",
    technique="per-path symbolic execution of the real proxy_headers middleware / parse_proxy_headers / undquote on symbolic header strings (z3 bit-vector cells); totality plus relational (self-composition) checks for untrusted kinds and untrusted hops",
    text="Each proxy header as a fully symbolic string of 0..5 (quick) / 0..7 (thorough) characters over the field-value alphabet: z3 shows on every path that the outcome is an application call or a 400 - never an exception or 500. Relational runs on the same symbolic values show that header kinds outside trusted_proxy_headers cannot change the seven metadata keys and are stripped, and that hops further left than trusted_proxy_count (symbolic content, may contain commas and quotes) change nothing the application sees; token hop lists of 1..5 elements with a symbolic window and trusted_proxy_count 1..4 show address/host come from exactly the count-th hop from the right."),
+ "C15": dict(level="model_checking", design="5/C15",
+   technique="relational (self-composition) per-path symbolic execution of the real server wrapping, parser, proxy middleware and environ construction: same request with and without symbolic proxy headers from a symbolic untrusted peer; z3 decides equality of the metadata keys",
+   text="For 7 configurations x trusted_proxy_count 1..4 and a symbolic peer address different from the trusted proxy, every proxy header with a fully symbolic value (<=3 bytes quick, <=4 thorough), hostile templates with a symbolic byte at every position, and all six headers together are sent through the real TcpWSGIServer wrapping, HTTPChannel, parser and WSGITask; on every path z3 decides that the seven metadata keys equal those of the run without the headers and that, with clearing on, no proxy header key reaches the application."),
 }
 NA = {}
 checks = []
